@@ -18,6 +18,9 @@ from . import c03
 from . import c12_pack
 
 
+RESCALE_CASES = []
+
+
 def frac(f):
     return f[0] / f[1]
 
@@ -144,11 +147,13 @@ def rescale(run):
     r = run.tlc("hyp/Rescale.tla", c, name="Rescale", workers=min(8, core.NCPU), emit_prefix="CASE ")
     seen = set()
     n = 0
+    RESCALE_CASES.clear()
     for e in r.emits:
         k = json.dumps([e["obj"], e["A"], e["sc"]], sort_keys=True)
         if k in seen:
             continue
         seen.add(k)
+        RESCALE_CASES.append(e)
         n += 1
         o = e["obj"]
         trivial = all(c == [1, 1] for c in e["sc"])
@@ -165,6 +170,81 @@ def rescale(run):
         if not trivial and o["cls"] in ("tangent", "segment"):
             run.sample(dict(kind="rescale case (%s)" % o["cls"], obj=o, scale=e["sc"], obs=e["obs"]))
     run.traces += n
+    rescale_composites(run, [json.loads(k) for k in []] or RESCALE_CASES)
+
+
+def rescale_composites(run, cases):
+    """composite objects whose UNITS carry different scale factors (mixed signs): every vectorised result must be,
+    unit by unit, what the unscaled unit object gives"""
+    H = hc.H()
+    by_cls = {}
+    for e in cases:
+        o = e["obj"]
+        if o["cls"] == "point" and "coords" not in e["obs"]:
+            continue            # origin_to / conformal coordinates of ideal points are outside the domain
+        if o["cls"] in ("tangent", "point", "segment") and not all(c == [1, 1] for c in e["sc"]):
+            by_cls.setdefault((o["cls"], len(o.get("rows", []))), {})[json.dumps([o, e["sc"]], sort_keys=True)] = e
+    for (cls, k), d in sorted(by_cls.items()):
+        es = list(d.values())
+        # pick units with different sign patterns
+        neg = [e for e in es if e["sc"][0][0] < 0][:2]
+        pos = [e for e in es if e["sc"][0][0] > 0 and e["obj"] not in [n["obj"] for n in neg]][:2]
+        group = neg[:1] + pos[:1] + neg[1:2]
+        if len(group) < 2:
+            continue
+        run.case(key=None, action="rescale_composite:" + cls)
+        try:
+            with np.errstate(all="ignore"):
+                units = [build_scaled(e["obj"], e["sc"]) for e in group]
+                plain = [build_scaled(e["obj"], [[1, 1]] * len(e["sc"])) for e in group]
+                if cls == "tangent":
+                    X = H.TangentVector(np.array([u.proj_data for u in units]))
+                else:
+                    X = type(units[0])(units)
+                bad = None
+                if cls in ("tangent", "point"):
+                    M = np.asarray(X.origin_to().matrix, float)
+                    for i, p in enumerate(plain):
+                        if not hc.mat_proj_close(M[i], np.asarray(p.origin_to().matrix, float), 1e-8):
+                            bad = ("composite.origin_to[%d]" % i, "%r vs unit %r" % (np.round(M[i], 5).tolist(), np.round(np.asarray(p.origin_to().matrix, float), 5).tolist()))
+                            break
+                if not bad and cls == "tangent":
+                    pa = np.asarray(X.point_along(0.5).proj_data, float)
+                    for i, p in enumerate(plain):
+                        if not hc.proj_close(pa[i], np.asarray(p.point_along(0.5).proj_data, float), 1e-8):
+                            bad = ("composite.point_along[%d]" % i, "%r" % (pa[i].tolist(),))
+                            break
+                    if not bad:
+                        Y = H.TangentVector(np.array([u.proj_data for u in units[::-1]]))
+                        T = np.asarray(X.isometry_to(Y).matrix, float)
+                        for i, p in enumerate(plain):
+                            want = np.asarray(p.isometry_to(plain[len(plain) - 1 - i]).matrix, float)
+                            img = H.Isometry(T[i]) @ p
+                            tgt = plain[len(plain) - 1 - i]
+                            spec_t = dict(cls="tangent", rows=[group[len(plain) - 1 - i]["obj"]["rows"][0]], vec=group[len(plain) - 1 - i]["obj"]["vec"])
+                            b = c03.same(img, "tangent", spec_t, H.TangentVector, ())
+                            if b:
+                                bad = ("composite.isometry_to[%d]:%s" % (i, b[0]), b[1])
+                                break
+                if not bad and cls == "point":
+                    for m in ("klein", "poincare", "halfspace"):
+                        got = np.asarray(X.coords(m), float)
+                        for i, p in enumerate(plain):
+                            if not np.allclose(got[i], np.asarray(p.coords(m), float), atol=1e-9):
+                                bad = ("composite.coords[%d]:%s" % (i, m), "%r" % (got[i].tolist(),))
+                                break
+                if not bad and cls == "segment":
+                    got = np.asarray(X.ideal_endpoint_coords(), float)
+                    for i, p in enumerate(plain):
+                        w = np.asarray(p.ideal_endpoint_coords(), float)
+                        if not (np.allclose(got[i], w, atol=1e-8) or np.allclose(got[i], w[::-1], atol=1e-8)):
+                            bad = ("composite.ideal_endpoints[%d]" % i, "%r vs %r" % (got[i].tolist(), w.tolist()))
+                            break
+        except Exception as ex:
+            bad = ("raised:composite", "%s: %s" % (type(ex).__name__, ex))
+        if bad:
+            run.violation("rescale_composite:%s:%s" % (cls, json.dumps([[e["obj"].get("rows"), e["sc"]] for e in group])[:300]),
+                          "rescale:" + bad[0], dict(cls=cls, units=[[e["obj"], e["sc"]] for e in group], observed=bad[1]))
 
 
 def run(run, replay=None):
